@@ -112,6 +112,55 @@ def plane_table(ctx):
     q = ev.block([pn[0]], [Path({'a_uvw': av, 'b_uvw': bv, 's': sg, 'box': V})])
     got = q[0].env.get('planenormal')
     ctx.ob('PLANE-TABLE', loc, 'the Cartesian normal is s·(a·cell) × (b·cell) in the (primitive) cell the indices refer to', got is not None and equal(np.asarray(got, dtype=object), sg * np.cross(av.dot(V), bv.dot(V)), deep=False), node=pn[0], key='normal')
+    # which cell: the head of the function (up to the search) evaluated with token cells
+    start = [k for k, s_ in enumerate(fn.body) if isinstance(s_, ast.Assign) and norm(s_.targets[0]) == 'a_mag']
+    ctx.need(len(start) == 1, 'free_surface_basis: start of the search section not found')
+    head = [s_ for s_ in fn.body[:start[0]] if not isinstance(s_, ast.FunctionDef)]
+    for tag, setting in (('no conventional setting', None), ('face-centred conventional setting', 'f'), ('body-centred conventional setting', 'i')):
+        used = []
+
+        class PB(PyStub):
+            def ishexagonal(self):
+                return False
+
+        class CB(PyStub):
+            def ishexagonal(self):
+                return False
+        pbox, cbox = PB(), CB()
+
+        class Rot(PyStub):
+            box = cbox
+
+        class Sy(PyStub):
+            def __init__(self, box=None):
+                self.b = box
+
+            def rotate(self, uvws):
+                return Rot()
+
+        class Mil(PyStub):
+            def vector_conventional_to_primitive(self, u, setting=None):
+                return np.asarray(u, dtype=object) * 2 if np.ndim(u) == 1 else u
+
+            def plane4to3(self, u):
+                return u
+
+        def v2c(u, box):
+            used.append(box)
+            return np.asarray(u, dtype=object)
+        ev = SymEval(module_aliases(ctx.mod(FSB)))
+        ev.globals = {'vector_crystal_to_cartesian': v2c, 'miller': Mil(), 'System': Sy, 'int': lambda x: x}
+        ev.np_override = {'numpy.allclose': lambda a, b, **k: True, 'numpy.lcm.reduce': lambda v: sp.ilcm(*[int(x) for x in v]), 'numpy.lcm': lambda a, b: sp.ilcm(int(a), int(b)),
+                          'numpy.max': lambda v: max(int(x) for row in v for x in np.ravel(row))}
+        try:
+            q = ev.block(head, [Path({'hkl': arr([1, 1, 1]), 'box': pbox, 'cutboxvector': 'c', 'maxindex': None, 'return_hexagonal': None, 'return_planenormal': True, 'conventional_setting': setting,
+                                      'tol': sp.Rational(1, 10 ** 8)})])
+        except Opaque as e:
+            raise AnalysisError('free_surface_basis head (%s): %s' % (tag, e))
+        live = [p_ for p_ in q if p_.done is None]
+        ok = len(live) == 1 and live[0].env.get('box') is pbox and len(used) >= 2 and all(b_ is pbox for b_ in used)
+        ctx.ob('PLANE-TABLE', loc, '%s: the plane normal, and every Cartesian conversion after it, is taken in the (primitive) cell the returned indices refer to' % tag, bool(ok),
+               'conversions used %s; cell in force after the head: %s' % ([type(b_).__name__ for b_ in used], type(live[0].env.get('box')).__name__ if live else None), node=pn[0], key='cell ' + tag)
 
 
 def _search_eval(ctx, fn, V, normal, maxindex, order=None):
@@ -140,7 +189,11 @@ def _search_eval(ctx, fn, V, normal, maxindex, order=None):
             return sp.Integer(180)
         return sp.acos(c) * 180 / sp.pi
     ev = SymEval(module_aliases(ctx.mod(FSB)))
-    ev.globals = {'gen_vector': lambda n: list(cands), 'vector_crystal_to_cartesian': lambda u, box: np.asarray(u, dtype=object).dot(V), 'vect_angle': angle}
+    def v2c(u, box):
+        if box != 'BOX':
+            raise WouldRaise('a Cartesian conversion in the search uses another cell than the one in force (%r)' % (box,))
+        return np.asarray(u, dtype=object).dot(V)
+    ev.globals = {'gen_vector': lambda n: list(cands), 'vector_crystal_to_cartesian': v2c, 'vect_angle': angle}
 
     def isclose(a, b, **k):
         return bool(sp.simplify(sp.sympify(a) - b) == 0)
@@ -347,10 +400,14 @@ def free_surface(ctx):
                 ctx.ob('FREE-SURFACE', loc, "cutboxvector='%s': a rotated cell whose box vector %d has a component along the cut axis is refused" % (letter, which), not live, node=fn, key='refuse %s %d' % (letter, which))
     ctx.floor('FREE-SURFACE/refusals', n, 9)
     # shifts midway between planes
-    for tag, coords, w in (('three planes, none at the edge', [R(1, 8), R(1, 2), R(3, 4)], 2), ('plane at the cell origin', [0, R(1, 2), R(1, 4), R(1, 2)], 2), ('single plane', [R(1, 3)], 1), ('plane at both edges (periodic copy)', [0, 2, 4], 0)):
+    for tag, coords, w in (('three planes, none at the edge', [R(1, 8), R(1, 2), R(3, 4)], 2), ('plane at the cell origin', [0, R(1, 2), R(1, 4), R(1, 2)], 2), ('single plane', [R(1, 3)], 1), ('plane at both edges (periodic copy)', [0, 2, 4], 0),
+                           ('three planes, out-of-plane box vector tilted (longer than the repeat distance along the normal)', [R(1, 8), R(1, 2), R(3, 4)], 1),
+                           ('plane at both edges (periodic copy), out-of-plane vector tilted', [0, 2, 4], 2)):
         vects = [[sp.Integer(0)] * 3 for _ in range(3)]
         for i in range(3):
             vects[i][i] = sp.Integer(4)
+        if 'tilted' in tag:
+            vects[w][(w + 1) % 3] = sp.Integer(3)
         letter = 'abc'[w]
         width = sp.Integer(4)
         coords_abs = [sp.nsimplify(c) * (1 if tag.startswith('plane at both') else width) for c in coords] if not tag.startswith('plane at both') else [sp.Integer(c) for c in coords]
@@ -585,13 +642,18 @@ def fault(ctx):
     ctx.ob('FAULT', loc + 'a2vect_uvw.setter', 'the two shift-vector setters are the same code up to the vector\'s name', srcs['a1vect_uvw'].replace('__a1vect', '__aNvect') == srcs['a2vect_uvw'].replace('__a2vect', '__aNvect'), key='siblings')
     # surface(): default fault position in the middle; both given refused
     sfn = ctx.fn(SF, 'StackingFault.surface')
-    for tag, kw, want in (('default', {}, ('rel', sp.Rational(1, 2))), ('relative given', dict(faultpos_rel=sp.Rational(1, 4)), ('rel', sp.Rational(1, 4))), ('Cartesian given', dict(faultpos_cart=sp.Integer(7)), ('cart', sp.Integer(7)))):
+    FRESH = {'_StackingFault__faultpos_rel': None, '_StackingFault__faultpos_cart': None, '_StackingFault__abovefault': None}
+    USED = {'_StackingFault__faultpos_rel': sp.Rational(1, 2), '_StackingFault__faultpos_cart': sp.Integer(9), '_StackingFault__abovefault': 'MASK-OF-THE-PREVIOUS-SYSTEM'}
+    for tag, kw, want, state in (('default', {}, ('rel', sp.Rational(1, 2)), FRESH), ('relative given', dict(faultpos_rel=sp.Rational(1, 4)), ('rel', sp.Rational(1, 4)), FRESH),
+                                 ('Cartesian given', dict(faultpos_cart=sp.Integer(7)), ('cart', sp.Integer(7)), FRESH),
+                                 ('default, on an object that already built a system before (position and mask must be recomputed for the new system)', {}, ('rel', sp.Rational(1, 2)), USED),
+                                 ('relative given, on an object used before', dict(faultpos_rel=sp.Rational(1, 4)), ('rel', sp.Rational(1, 4)), USED)):
         sets = []
 
         class Sup(PyStub):
             def surface(self, **k):
                 sets.append(('super', k))
-        obj = SymObj(cls, {'system': 'SYS'}, 'self')
+        obj = SymObj(cls, dict(state, system='SYS'), 'self')
         # record attribute stores to the two position properties
         ev = SymEval(aliases)
         ev.globals = {'super': lambda *a: Sup()}
